@@ -188,7 +188,14 @@ def step(line):
                     pass
             return show_bits(U.decode_into_bit_array(data, int(p[2])))
         if cmd == 'armor':
-            s, f = U.encode_ascii_6(parse_bits(p[1]))
+            # one bit vector armored twice (a report sent on channel A and then on B): the same answer, and the
+            # caller's vector is still what it was
+            bits = parse_bits(p[1])
+            s, f = U.encode_ascii_6(bits)
+            s2, f2 = U.encode_ascii_6(bits)
+            if (s, f) != (s2, f2) or bits != parse_bits(p[1]):
+                return 'RESULT-DEPENDS-ON-EARLIER-RESULT first=%s,%d second=%s,%d vector-now=%s' % (
+                    s.encode().hex() or '-', f, s2.encode().hex() or '-', f2, show_bits(bits)[:80])
             return '%s %d' % (s.encode().hex() or '-', f)
         if cmd == 'sotdma':
             return _cs_twice(lambda: U.get_sotdma_comm_state(int(p[1])))
@@ -196,9 +203,28 @@ def step(line):
             return _cs_twice(lambda: U.get_itdma_comm_state(int(p[1])))
         if cmd == 'commstate_bits':
             m = decode_bits(parse_bits(p[1]))
+            # (a decoded message that reported its state and is then given another radio value - a template advanced
+            # to the next frame - reports the state of the new value)
+            other = decode_bits(parse_bits(p[1][:-19] + ''.join('1' if c == '0' else '0' for c in p[1][-19:])))
+            other.get_communication_state(), other.communication_state_raw
+            other.radio = m.radio
+            a = (other.is_sotdma, other.is_itdma, other.communication_state_raw, show_cs(other.get_communication_state(), True))
+            b = (m.is_sotdma, m.is_itdma, m.communication_state_raw, show_cs(m.get_communication_state(), True))
+            if a != b:
+                return 'RESULT-DEPENDS-ON-EARLIER-RESULT message-with-changed-radio=%s fresh-message=%s' % (a, b)
             return '%s %s %d %s' % (str(m.is_sotdma).lower(), str(m.is_itdma).lower(), m.communication_state_raw,
                                     _cs_twice(lambda: decode_bits(parse_bits(p[1])).get_communication_state(), True))
         if cmd == 'commstate':
+            # (first: a message object that reported its state and then got another radio value must report the
+            # state of the new value)
+            other = _Radio(int(p[1]), int(p[2]) ^ 0x2aaaa)
+            other.get_communication_state(), other.communication_state_raw, other.is_sotdma, other.is_itdma
+            other.radio = int(p[2])
+            fresh = _Radio(int(p[1]), int(p[2]))
+            a = (other.is_sotdma, other.is_itdma, other.communication_state_raw, show_cs(other.get_communication_state(), True))
+            b = (fresh.is_sotdma, fresh.is_itdma, fresh.communication_state_raw, show_cs(fresh.get_communication_state(), True))
+            if a != b:
+                return 'RESULT-DEPENDS-ON-EARLIER-RESULT object-with-changed-radio=%s fresh-object=%s' % (a, b)
             m = _Radio(int(p[1]), int(p[2]))
             return '%s %s %d %s' % (str(m.is_sotdma).lower(), str(m.is_itdma).lower(), m.communication_state_raw,
                                     _cs_twice(lambda: _Radio(int(p[1]), int(p[2])).get_communication_state(), True))
@@ -961,7 +987,7 @@ def run_tracker(ordered, ttl, ops):
             tr.cleanup()
             out.append('c[%s %s' % (take(), state()))
         elif p[0] == 'p':
-            t = tr.pop_track(int(p[1]))
+            t = tr.pop_track(str(int(p[1])) if k % 2 else int(p[1]))       # (the MMSI may be given as str or int)
             out.append('p[%s%s %s' % (take(), 'N' if t is None else show_track(t), state()))
         elif p[0] == 'n':
             out.append('n[%s] %s' % (' '.join(str(t.mmsi) for t in tr.n_latest_tracks(int(p[1]))), state()))
@@ -1081,6 +1107,17 @@ def run_chain(fspec, lines):
         res2 = '[' + ','.join(str(i) for i in out2) + ']'
     except Exception as e:  # noqa
         res2 = err(e)
+    if res2 == res:
+        # a reader object (not an iterator) can be filtered more than once
+        try:
+            rd = ST.IterMessages([e.line for e in elems])
+            n1 = len(list(chain2.filter(rd)))
+            n2 = len(list(chain2.filter(rd)))
+            n3 = len(list(FL.FilterChain([make_filter(s) for s in fspec.split('+')]).filter(rd)))
+            if not (n1 == n2 == n3 == len(out)):
+                res2 = 'one reader filtered three times: %d, %d, %d messages (expected %d each)' % (n1, n2, n3, len(out))
+        except Exception as e:  # noqa
+            res2 = 'filtering a reader raised ' + err(e)
     SENT_IDX.clear()
     if res2 != res:
         return 'READERS-DIFFER chain-over-decodables=%s chain-over-sentences=%s' % (res, res2)
@@ -1137,6 +1174,12 @@ def step2(line):
                 fam['decode(str)'] = _try(lambda: canon_msg(pyais.decode(*sargs, error_if_checksum_invalid=strict)))
         except UnicodeDecodeError:
             pass
+        if len(args) == 1 and not strict and not fam['decode'].startswith('ERR') and args[0][:1] in (b'!', b'$') \
+                and args[0] == args[0].strip():
+            # a sentence object built directly from a line that still carries its line terminator
+            for term in (b'\r\n', b'\n'):
+                fam['AISSentence.from_bytes(line + %r).decode()' % term] = _try(
+                    lambda: canon_msg(M.AISSentence.from_bytes(args[0] + term).decode()))
         res = _family(fam)
         if not res.startswith(('ERR', 'READERS-DIFFER')):
             # the merged view of sentence and decoded message shows the decoded fields as decode() does
@@ -1179,7 +1222,8 @@ def step2(line):
             for kv in p[1].split(';'):
                 k, v = kv.split('=')
                 fields[k] = None if v == 'N' else unhx(v).decode('utf-8')
-        return hx(M.TagBlock.create(**fields))
+        return _family({'TagBlock.create': _try(lambda: hx(M.TagBlock.create(**fields))),
+                        'TagBlock.create_str': _try(lambda: hx(M.TagBlock.create_str(**fields).encode('utf-8')))})
     if cmd == 'cycle_msg':
         m = getattr(M, p[1]).from_bitarray(parse_bits(p[2]))
         try:
